@@ -1,20 +1,33 @@
 (** Pins/C08.v — the statements of the C08 theorems, pinned. *)
-From PdfV Require Import Base.Prelude Gen.Generated Content.Model Content.Canon Content.Proofs Content.TableProofs Properties.C08.
+From PdfV Require Import Base.Prelude Gen.Generated Content.Model Content.Canon Content.Proofs Content.TableProofs Content.Bytes Content.BytesProofs Properties.C08.
 
 Check C08_roundtrip_tokens : forall ops, accepted ops ->
   exists ts, ser_toks ops = Ok ts /\ parse_ops_toks ts = Ok ops.
 Check C08_roundtrip : forall lex ops, accepted ops -> lex_reads_back lex ops ->
   forall b, ser_ops ops = Ok b -> parse_ops lex b = Ok ops.
+Check C08_roundtrip_bytes : forall img ops, accepted ops -> writable ops ->
+  forall b, ser_ops ops = Ok b -> parse_bytes_with img b = Ok ops.
+Check C08_lex_reads_back : forall img ts b,
+  toks_okb ts = true -> render_toks ts = Ok b -> parse_bytes_with img b = parse_ops_toks ts.
+Check C08_ser_defined : forall ops, accepted ops -> writable ops -> exists b, ser_ops ops = Ok b.
 Check C08_cur_point_sync :
   sync None (fst st0) /\
   forall cur last o rest args k cur2 n,
     op_okb o = true -> td_okb o rest = true -> sync cur last ->
     ser_head cur o rest = Ok (args, k, cur2, n) ->
     exists last2, add k args (last, false) = (o :: firstn n rest, Ok (last2, false)) /\ sync cur2 last2.
+Check C08_writer_current_point :
+  below None None /\
+  (forall cur (st : option point * option point) o rest args k cur2 n,
+     below cur (fst st) -> ser_head cur o rest = Ok (args, k, cur2, n) ->
+     below cur2 (fst (fold_left iso_cp_step (o :: firstn n rest) st))) /\
+  (forall cur (st : option point * option point) c1 c2 p rest args cur2 n,
+     below cur (fst st) -> ser_head cur (OCurveTo c1 c2 p) rest = Ok (args, Kv, cur2, n) ->
+     exists q, fst st = Some q /\ pt_eqb c1 q = true /\ args = num2 c2 ++ num2 p).
 Check C08_table_yields : forall kw, In kw iso_keywords -> existsb (beqb kw) silent_ok = false ->
   is_d0_d1 kw = false -> yields kw = true.
 Check C08_table_d0_d1_refuted : ~ C08_table_full_statement.
-Check C08_table_Tr_refuted : ~ C08_table_Tr_full_statement.
+Check C08_table_Tr : forall m, m < 8 -> forall st, pushed KTr [PInt (Z.of_N m)] st = [OTextRenderMode m].
 Check C08_no_leak_buffer : forall st buf w args r, beqb w (kw_name KBI) = false ->
   parse_toks st buf None (TWord w :: List.map TObj args ++ r) =
   match add_word w buf st with
@@ -36,3 +49,4 @@ Check C08_inline_abbreviations :
   same_map iso_inline_filters inline_filter_abbr = true.
 (* the domain of the round trip cannot be narrowed silently *)
 Check eq_refl : seq_okb demo_ops = true.
+Check eq_refl : writableb demo_ops = true.
